@@ -214,7 +214,7 @@ contract('Queue.flush', module=M, props=['C12'], yields=True,
          ghost_after={'self.queued_lock.acquire()': ['_gq = self.queued[0:len(self.queued)]']},
          ensures=['INV_timetable(self)', 'GHOST_ok(self)', 'INV_flight(self)', 'len(self.queued) == 0'],
          checks=['forall(_gq, lambda e: e[1] in self.pending_dequeue)'],
-         modifies=['contents(self.queued)', 'contents(self.queued_ids)', 'self.queued', 'self.queued_ids', 'contents(self.active_ids)', 'self.wake.flag', 'contents(self.pending_dequeue)', 'contents(self.attempting)', 'contents(self.pending_retry)', 'self.queued_lock.counter', 'fresh'],
+         modifies=['contents(self.queued)', 'contents(self.queued_ids)', 'self.queued', 'self.queued_ids', 'contents(self.active_ids)', 'self.wake.flag', 'contents(self.pending_dequeue)', 'contents(self.attempting)', 'contents(self.pending_retry)', 'self.queued_lock.counter', 'self.queued_lock.held', 'fresh'],
          loops={0: dict(inv=['forall(range(0, _k), lambda j: self.queued[j][1] in self.pending_dequeue)',
                              '_gq != None and fresh(_gq) and _gq is not self.queued and seq(_gq) == seq(self.queued)',
                              'GHOST_ok(self)', 'INV_flight(self)', 'INV_timetable(self)'],
@@ -247,7 +247,6 @@ contract('Queue._wait_store', module=M, props=['C12'], yields=True,
 
 # ---------------------------------------------------------------------------- scheduler loop (C12)
 # ghost: the scheduler greenlet currently holds the timetable lock that flush() needs
-klass('Queue', ghost={'run_holds_lock': 'Bool'})
 klass('Pool')
 klass('Queue', fields={'store_pool': 'Pool', 'relay_pool': 'Pool', 'bounce_pool': 'Pool'})
 QSHARED = ['contents(self.queued)', 'contents(self.queued_ids)', 'self.queued', 'self.queued_ids',
@@ -259,7 +258,7 @@ contract('Queue._wait_ready', module=M, props=['C12'], yields=True,
          requires=['QUEUE_ok(self)',
                    # lock discipline ("flush() returns without waiting on the scheduler loop"): the scheduler must
                    # not go to sleep while it holds the lock flush() has to take
-                   'not self.run_holds_lock'],
+                   'self.queued_lock != None', 'not self.queued_lock.held'],
          ensures=['INV_timetable(self)', 'GHOST_ok(self)', 'INV_flight(self)'],
          checks=['ncalls("Event.wait") <= 1',
                  # sleeps until the first entry is due, not a moment longer; an empty timetable sleeps until woken
@@ -271,13 +270,11 @@ contract('Queue._wait_ready', module=M, props=['C12'], yields=True,
 
 contract('Queue._run', module=M, props=['C12'], yields=True,
          params={'self': 'Queue'},
-         requires=['QUEUE_ok(self)', 'self.queued_lock != None', 'self.store != None', 'not self.run_holds_lock'],
-         ghost_after={'self.queued_lock.acquire()': ['self.run_holds_lock = True'],
-                      'self.queued_lock.release()': ['self.run_holds_lock = False']},
+         requires=['QUEUE_ok(self)', 'self.queued_lock != None', 'self.store != None', 'not self.queued_lock.held'],
          ensures=['self.relay == None'],
-         modifies=QSHARED + ['self.queued_lock.counter', 'self.run_holds_lock', 'fresh'],
-         loops={0: dict(inv=['INV_timetable(self)', 'GHOST_ok(self)', 'INV_flight(self)', 'not self.run_holds_lock'],
-                        modifies=QSHARED + ['self.queued_lock.counter', 'self.run_holds_lock', 'fresh'])})
+         modifies=QSHARED + ['self.queued_lock.counter', 'self.queued_lock.held', 'fresh'],
+         loops={0: dict(inv=['INV_timetable(self)', 'GHOST_ok(self)', 'INV_flight(self)', 'not self.queued_lock.held'],
+                        modifies=QSHARED + ['self.queued_lock.counter', 'self.queued_lock.held', 'fresh'])})
 
 contract('Queue._remove', module=M, props=['C01', 'C03', 'C13'],
          params={'self': 'Queue', 'id': 'Str'},
